@@ -10,8 +10,8 @@ COMMON_ASSUMPTIONS = [
 CHECKS = {
     "C01": {
         "tests": [
-            {"name": "TestC01", "quick": 48000, "thorough": 1600000},
-            {"name": "TestC01Pump", "quick": 3200, "thorough": 64000},
+            {"name": "TestC01", "quick": 320000, "thorough": 3200000},
+            {"name": "TestC01Pump", "quick": 16000, "thorough": 160000},
         ],
         "fuzz": [{"name": "FuzzStructured", "time": "180s"}],
         "rule": "cases = (declaration set, spec AST rendered to a spec string, argv) drawn by rapid from sentence sampling / token mutation / hostile token soup; "
@@ -24,7 +24,7 @@ CHECKS = {
     },
     "C02": {
         "tests": [
-            {"name": "TestC02", "quick": 48000, "thorough": 1600000},
+            {"name": "TestC02", "quick": 320000, "thorough": 3200000},
         ],
         "rule": "same generator as C01; on every accepted claimed case the values recorded by recorder value types (every Set call, in order, per container) must be "
                 "the bindings of some derivation of the reference semantics (verification mode) and untouched containers must keep their declaration-time content; "
@@ -34,8 +34,8 @@ CHECKS = {
     },
     "C09": {
         "tests": [
-            {"name": "TestC09Transparency", "quick": 96000, "thorough": 1600000},
-            {"name": "TestC09Tail", "quick": 96000, "thorough": 1600000},
+            {"name": "TestC09Transparency", "quick": 320000, "thorough": 2400000},
+            {"name": "TestC09Tail", "quick": 320000, "thorough": 2400000},
         ],
         "rule": "(1) transparency: programs without spec-level -- and without env-backed options, argv from the C01 sources (accepted and rejected) not containing -- ; "
                 "the trailing block = maximal suffix of tokens not starting with '-' and not the separate-form value of a valued option (spec-independent lexing); "
@@ -48,7 +48,7 @@ CHECKS = {
         "assumptions": COMMON_ASSUMPTIONS + ["argv tokens of the shape '-f-...' (dash after flag letters, whose residue the library reads as --) are set aside and counted"],
     },
     "C10": {
-        "tests": [{"name": "TestC10", "quick": 160000, "thorough": 3200000}],
+        "tests": [{"name": "TestC10", "quick": 480000, "thorough": 4800000}],
         "rule": "programs without spec-level --; an item sequence (sentence sampling, then item-level drop/duplicate/insert/swap so rejected lines are included; values non-empty, "
                 "not '-'- or '='-prefixed) is spelled twice independently: per occurrence a random documented spelling and a random folding of adjacent short-spelled occurrences; "
                 "items after a command-line -- are data and kept identical; oracle: identical acceptance and identical bound values, plus the reference-model verdict; "
@@ -57,7 +57,7 @@ CHECKS = {
         "assumptions": COMMON_ASSUMPTIONS,
     },
     "C11": {
-        "tests": [{"name": "TestC11", "quick": 160000, "thorough": 3200000}],
+        "tests": [{"name": "TestC11", "quick": 480000, "thorough": 4800000}],
         "rule": "generator of C10; one adjacent pair of occurrences of different options (before any --) is swapped at item level and both sequences are spelled independently; "
                 "oracle: identical acceptance and bound values, plus the reference-model verdict; non-trivial = a spelling in which an occurrence spans two tokens or sits in a fold; "
                 "distinct by (program, both argvs)",
@@ -65,7 +65,7 @@ CHECKS = {
         "assumptions": COMMON_ASSUMPTIONS,
     },
     "C12": {
-        "tests": [{"name": "TestC12", "quick": 24000, "thorough": 480000}],
+        "tests": [{"name": "TestC12", "quick": 80000, "thorough": 800000}],
         "rule": "C01 programs (spec-level -- allowed); argv from sentence sampling in which would-be env-backed options are omitted at random, optionally token-mutated; "
                 "the same argv is run with no option env-backed and with EVERY non-empty subset of the options env-backed (<= 4 options: all 2^n-1 subsets; above: 8 random subsets); "
                 "evaluations count (case, subset) runs; oracle: accepted(empty) => accepted(E); for specs without -- identical option value lists; reference-model verdict under E; "
@@ -75,9 +75,9 @@ CHECKS = {
     },
     "C08": {
         "tests": [
-            {"name": "TestC08Exhaustive", "quick": 16, "thorough": 16, "rapid": False, "timeout": 3000,
+            {"name": "TestC08Exhaustive", "quick": 16, "thorough": 16, "rapid": False, "timeout": 1500,
              "env": {"VERIF_C08_L": 6, "VERIF_C08_NAMINGS": "all", "VERIF_C08_L2": 5}, "env_thorough": {"VERIF_C08_L": 7, "VERIF_C08_L2": 6}},
-            {"name": "TestC08Random", "quick": 160000, "thorough": 3200000},
+            {"name": "TestC08Random", "quick": 480000, "thorough": 4800000},
         ],
         "fuzz": [{"name": "FuzzSpecString", "time": "180s"}],
         "rule": "(a) EXHAUSTIVE: every string up to length L over the 19-symbol character-class alphabet {space, TAB, [ ] ( ) | . - = < > a b X Y 1 _ 0xC3} "
@@ -93,7 +93,7 @@ CHECKS = {
         "assumptions": COMMON_ASSUMPTIONS + ["strings longer than L are only sampled (keyword OPTIONS, long names, annotations with blanks come from the rapid sources)"],
     },
     "C03": {
-        "tests": [{"name": "TestC03", "quick": 40000, "thorough": 1200000, "deadline": "10s"}],
+        "tests": [{"name": "TestC03", "quick": 120000, "thorough": 1600000, "deadline": "10s"}],
         "fuzz": [{"name": "FuzzCompileAndParse", "time": "240s"}],
         "rule": "cases = (spec string, declarations, argv, environment subsets); spec sources: grammar-derived with nesting turned up (depth 5: repetitions of optionals of repetitions, -- and option "
                 "groups inside repetitions), the same with byte/fragment edits, edited strings of the repository corpus, alphabet-biased and raw byte strings; argv from the C01 sources, "
@@ -107,9 +107,9 @@ CHECKS = {
     "C05": {
         "level": "fault_enumeration",
         "tests": [
-            {"name": "TestC05Exhaustive", "quick": 16, "thorough": 16, "rapid": False, "timeout": 3000,
+            {"name": "TestC05Exhaustive", "quick": 16, "thorough": 16, "rapid": False, "timeout": 1500,
              "env": {"VERIF_C05_DEPTH": 4}, "env_thorough": {"VERIF_C05_DEPTH": 5}},
-            {"name": "TestC05Random", "quick": 48000, "thorough": 1600000},
+            {"name": "TestC05Random", "quick": 160000, "thorough": 1600000},
         ],
         "rule": "fault plan = path depth d and, for each of the 2d+3 hooks (Before_0..Before_d, Action, After_0..After_d), one of {absent, returns, panics with a unique pointer value, calls Exit(100+i)}; "
                 "the 4^(2d+3) plans are ENUMERATED COMPLETELY for every d <= 4 (quick; 4 456 512 plans) / d <= 5 (thorough; 71 565 376 plans); rapid adds random plans at depth 0-8 with sibling commands at every level "
@@ -121,17 +121,17 @@ CHECKS = {
         "assumptions": COMMON_ASSUMPTIONS + ["the exit stub never returns (like os.Exit): it panics with a private sentinel recovered around Run; hooks are plain closures, no goroutines"],
     },
     "C04": {
-        "tests": [{"name": "TestC04", "quick": 64000, "thorough": 1600000}],
+        "tests": [{"name": "TestC04", "quick": 256000, "thorough": 2400000}],
         "rule": "cases = (command tree of depth <= 3, fan-out <= 3, 1-3 aliases per command, own declarations and own explicit or implicit spec per command, Action on ~80% of the commands and on the addressed one; "
                 "a path spelled with a random alias per level; per-level tokens from sentence sampling, token mutation, trailing unknown words); oracle: the vector is split at alias tokens, every level is judged by the "
                 "reference semantics on its own tokens; all levels accept -> hook log is exactly Before(root..leaf), the leaf's Action once, After(leaf..root) and every level's recorder bindings are a derivation of that level's tokens; "
                 "otherwise Run reports an error and nothing ran. non-trivial = accepted routing of depth >= 2 with a non-empty level and a non-first alias; distinct by (argv, policy)",
-        "required_classes": {"kind:accept": 0.2, "kind:reject": 0.1, "accept:depth>=1": 0.05},
+        "required_classes": {"kind:accept": 0.2, "kind:reject": 0.1, "accept:depth>=1": 0.05, "accept:two-levels-with-identical-declarations": 0.0005},
         "assumptions": COMMON_ASSUMPTIONS + ["per-level tokens never spell an alias of a direct subcommand (precondition of the property; aliases use a reserved shape)"],
     },
     "C07": {
-        "tests": [{"name": "TestC07", "quick": 64000, "thorough": 1600000},
-                  {"name": "TestC07Values", "quick": 64000, "thorough": 1600000}],
+        "tests": [{"name": "TestC07", "quick": 256000, "thorough": 2400000},
+                  {"name": "TestC07Values", "quick": 320000, "thorough": 3200000}],
         "rule": "tree generator of C04 x the three error policies (set on the app before any command is declared; in addition ~1/3 of the sub commands on the path assign their own policy at the start of their initializer, which their descendants inherit) x rejection kinds: spec mismatch at a random level (token mutation), unknown subcommand / undeclared option "
                 "words, a token no value type can convert (every container is a recorder failing on one reserved token); oracle: the first level the reference semantics rejects is the rejecting command; "
                 "no hook log entry; error stream contains the error text and 'Usage: <path of the rejecting command>'; ContinueOnError -> returned error, no exit; ExitOnError -> exit stub called once with 2; "
@@ -142,16 +142,16 @@ CHECKS = {
         "assumptions": COMMON_ASSUMPTIONS + ["message wording is not compared, only its presence in the stream"],
     },
     "C14": {
-        "tests": [{"name": "TestC14", "quick": 64000, "thorough": 1600000}],
+        "tests": [{"name": "TestC14", "quick": 256000, "thorough": 2400000}],
         "rule": "tree generator of C04 x three policies; a -h/--help token inserted at a random position of a random level (whose other tokens may be invalid), sometimes behind a '--' of the same level (then it is data); "
                 "a version flag as first argument on apps declaring a version; oracle: the command addressed by the aliases preceding the token prints 'Usage: <full path>' and its own LongDesc word and no other command's; "
                 "hook log empty; ExitOnError -> exit(0) once, otherwise Run returns nil without panic; version: the version string is printed, same ending. "
                 "not claimed (counted): a help token below an ancestor whose own tokens contain '--'. non-trivial = help at depth >= 1 or behind ancestor tokens invalid for their level, or a version request; distinct by (argv, policy)",
-        "required_classes": {"kind:help": 0.3, "kind:version": 0.02, "help:after-invalid-ancestor-args": 0.01, "help:token-after-dd-is-data": 0.01},
+        "required_classes": {"kind:help": 0.3, "kind:version": 0.02, "help:after-invalid-ancestor-args": 0.01, "help:token-after-dd-is-data": 0.01, "help:tokens-at-several-levels": 0.01, "version:declared-not-requested-name-reused-by-subcommand": 0.01},
         "assumptions": COMMON_ASSUMPTIONS,
     },
     "C06": {
-        "tests": [{"name": "TestC06", "quick": 160000, "thorough": 3200000}],
+        "tests": [{"name": "TestC06", "quick": 640000, "thorough": 6400000}],
         "rule": "cases = apps with 1-3 containers (<= 2 options named o/opt, p/popt and <= 1 argument X) of the seven built-in types declared through the typed API (BoolOpt ... Floats64Arg) with a default "
                 "(incl. zero/empty), an environment list of 0-3 variables each unset / empty / valid / invalid (multi-valued: comma lists with blank padding), and 0-3 command-line values spelled "
                 "--opt=T / -o=T / -o T / -oT / --opt T / bare flag (options under [OPTIONS] or one optional repetition per option) or positionally (argument under [X...] or [-- X...]); "
@@ -161,24 +161,25 @@ CHECKS = {
         "assumptions": COMMON_ASSUMPTIONS + ["F9 (invalid env list wipes a multi-valued default) is a recorded known finding, attributed by its exact case class and only when the observed value is empty"],
     },
     "C13": {
-        "tests": [{"name": "TestC13", "quick": 160000, "thorough": 3200000}],
+        "tests": [{"name": "TestC13", "quick": 800000, "thorough": 8000000}],
         "fuzz": [{"name": "FuzzNumericToken", "time": "120s"}],
         "rule": "cases = one container of one of the seven built-in types x {option via --opt=T, -o=T, -oT, separate forms (non-dash T); argument} x {command line, environment (single: raw, multi: comma list)}; "
                 "tokens T from a pool of ~70 numeric/boolean edge literals, a numeric-shape regex generator and short arbitrary strings; oracle: differential against strconv.ParseInt(s,10,64) / ParseFloat(s,64) / ParseBool "
                 "(multi-valued env items after TrimSpace): accepted iff strconv accepts, bound value equal (floats by bit pattern), an unparsable command-line token => usage error and Action not run, strings byte-identical; "
                 "non-trivial = a token strconv rejects, or accepts with a value whose canonical formatting differs from the token; distinct by full case",
-        "required_classes": {"token:strconv-rejects": 0.05, "token:non-canonical-but-valid": 0.05, "route:environment": 0.03, "route:argument": 0.1, "route:option": 0.1, "outcome:usage-error-unparsable-token": 0.03},
+        "required_classes": {"token:strconv-rejects": 0.05, "token:non-canonical-but-valid": 0.05, "route:environment": 0.03, "route:argument": 0.1, "route:option": 0.1, "outcome:usage-error-unparsable-token": 0.03, "app:several-containers": 0.05},
         "assumptions": COMMON_ASSUMPTIONS + ["int is 64 bit on the build platform"],
     },
     "C15": {
-        "tests": [{"name": "TestC15", "quick": 160000, "thorough": 3200000}],
-        "rule": "generator of C06 with a SetByUser pointer (initially false) on every container; oracle: after a successful parse the flag is true iff the generated command line holds >= 1 value for that container; "
+        "tests": [{"name": "TestC15", "quick": 640000, "thorough": 6400000},
+                  {"name": "TestC15Parse", "quick": 240000, "thorough": 2400000}],
+        "rule": "generator of C06 (a third of the containers declared through the *Ptr API) with a SetByUser pointer (initially false) on every container; oracle: after a successful parse the flag is true iff the generated command line holds >= 1 value for that container; TestC15Parse repeats the question on the C01 programs (ambiguous specs, backtracking): no container may be flagged without holding a command-line value (e.g. one merely tried on an abandoned branch), none may hold one without being flagged; "
                 "non-trivial = accepted case with a container whose environment list has a non-empty variable (command line absent or present); distinct by full case",
-        "required_classes": {"env-present-cli-absent": 0.05, "env-and-cli-present": 0.05, "kind:argument": 0.1, "kind:option": 0.1},
+        "required_classes": {"env-present-cli-absent": 0.03, "env-and-cli-present": 0.03, "kind:argument": 0.05, "kind:option": 0.05, "args:some-bound-some-not": 0.005},
         "assumptions": COMMON_ASSUMPTIONS,
     },
     "C16": {
-        "tests": [{"name": "TestC16", "quick": 64000, "thorough": 1600000}],
+        "tests": [{"name": "TestC16", "quick": 256000, "thorough": 2400000}],
         "rule": "cases = declaration sets (0-4 options with 1-3 names each, possibly env-backed; 0-3 arguments) declared in a random interleaved call order, and C01-style argvs (sentences, token mutations, soup); "
                 "oracle: differential between two real apps built from the same declarations - Spec empty versus the explicit string '[OPTIONS] ARG1 ARG2 ...' assembled from the statement "
                 "('[OPTIONS]' omitted without options, arguments in declaration order): identical acceptance, identical bound values, identical whitespace-normalised usage line which must equal "
@@ -187,7 +188,7 @@ CHECKS = {
         "assumptions": COMMON_ASSUMPTIONS,
     },
     "C17": {
-        "tests": [{"name": "TestC17", "quick": 48000, "thorough": 1200000}],
+        "tests": [{"name": "TestC17", "quick": 320000, "thorough": 3200000}],
         "rule": "cases = a command at depth 0-2 with 0-4 arguments and 0-5 options of all seven built-in types declared in interleaved order (option names: only short, only long, several of each), "
                 "multi-line / blank-padded / empty descriptions, environment lists of 0-3 names whose variables hold OTHER valid values at declaration time, defaults of every type (empty and non-empty), HideValue, "
                 "0-4 subcommands with 1-3 aliases (a third Hidden), LongDesc set or not, implicit or explicit spec; help obtained through --help (long) or through a rejected invocation (short); "
@@ -199,7 +200,7 @@ CHECKS = {
         "assumptions": COMMON_ASSUMPTIONS + ["boilerplate wording and column layout are not compared"],
     },
     "C18": {
-        "tests": [{"name": "TestC18", "quick": 160000, "thorough": 3200000}],
+        "tests": [{"name": "TestC18", "quick": 800000, "thorough": 8000000}],
         "rule": "cases = sequences of 1-6 declaration calls; options carry 1-4 names drawn from a 12-name pool (so collisions inside one list, across options, between short and long forms and in either order are frequent), "
                 "declared through seven styles (Var with recorder, BoolOpt/StringOpt/IntOpt structs, BoolOpt()/StringOpt()/StringsOpt() short forms); argument names from a pool of valid identifiers, duplicates and "
                 "blank-free invalid strings (lower case, digit first, OPTIONS, A-B, A.B, empty, non-ASCII, X=, [X], X...); oracle: a name-table model - the panic must come at exactly the first colliding / invalid "
@@ -210,7 +211,7 @@ CHECKS = {
         "assumptions": COMMON_ASSUMPTIONS,
     },
     "C19": {
-        "tests": [{"name": "TestC19", "quick": 64000, "thorough": 1600000}],
+        "tests": [{"name": "TestC19", "quick": 256000, "thorough": 2400000}],
         "rule": "cases = programs whose every option and argument is an instrumented custom value type logging each Set and Clear, built from every subset of the optional methods "
                 "(IsBoolFlag returning true or false, Clear, IsDefault), with scripted Set failures, optional environment lists (valid, padded, failing items), specs '[OPTIONS] X...', '-c... X' and random ones, "
                 "argv from the C01 sources; oracle: invariants over the call log - at declaration exactly (Clear,) Set(trimmed environment items) per SetFromEnv's documented protocol; on a rejected line no call at all; "
@@ -222,7 +223,7 @@ CHECKS = {
     },
     "C20": {
         "race": True,
-        "tests": [{"name": "TestC20", "quick": 480, "thorough": 16000, "deadline": "60s"}],
+        "tests": [{"name": "TestC20", "quick": 2400, "thorough": 32000, "deadline": "60s"}],
         "rule": "cases = batches of 8-48 complete applications (C01 programs with env-backed options and several command lines per program so that spec strings repeat inside a batch, command trees with "
                 "hook logs, typed-value apps with environment lists); all environment variables of a batch get case-unique names and are set once before any goroutine starts; the harness is built with -race. "
                 "oracle on the outcome record (acceptance, every bound value as read inside the Action, hook log, exit/panic status; no message wording): (1) each application rebuilt and rerun gives the same record, "
